@@ -195,15 +195,16 @@ def step (s : Sys) (tid : Nat) : Sys :=
 
 def run (s : Sys) (sched : List Nat) : Sys := sched.foldl step s
 
-/-- the point id the implementation is parked at; `cCas` has none (the CAS follows the load without a yield
-    point in the source), the driver steps it together with `cLoadTail` -/
+/-- the point id the implementation is parked at.  `cCas` is the yield point `bkt.clear.cas` between the tail load
+    of `clear_with` and its detaching CAS (verification hook; reached only when the loaded tail was non-null, exactly
+    as the model enters `cCas` only then): one scheduler grant = one model step, for every PC -/
 def PC.label : PC → String
   | .start => "start" | .done => "done"
   | .pLoadTail => "bkt.push.load_tail" | .pCasFirst => "bkt.push.cas_first" | .pClaim _ _ => "blk.push.claim"
   | .pPublish _ _ => "blk.push.publish" | .pCasNew _ => "bkt.push.cas_new"
   | .dLoadTail => "bkt.data.load_tail" | .dQuiesced _ => "bkt.data.quiesced" | .dWait _ => "spin:bkt.data.wait"
   | .dRead _ => "bkt.data.read" | .dNext _ => "bkt.data.next"
-  | .cLoadTail => "bkt.clear.load_tail" | .cCas _ => "(internal)" | .cQuiesced _ => "bkt.clear.quiesced"
+  | .cLoadTail => "bkt.clear.load_tail" | .cCas _ => "bkt.clear.cas" | .cQuiesced _ => "bkt.clear.quiesced"
   | .cWait _ => "spin:bkt.clear.wait" | .cRead _ => "bkt.clear.read" | .cNext _ => "bkt.clear.next"
   | .eLoadTail => "bkt.empty.load_tail" | .eLen _ => "bkt.empty.len"
 
